@@ -11,6 +11,14 @@ last-voteproofs store).
     SetLastPointFromVoteproof), every (ivp, avp, cand) triple offered to a real LastVoteproofsHandler.Set;
     TLC checks the statement on every accepted update (SpecBox), on all paths up to 6 updates (SpecWalk)
     and on the whole graph of the handler reachable from the empty handler (SpecHdl, position = Cap()).
+ 2b. binding B, the moves the box makes ITSELF (LastPointVote.tla / LastPointVoteTrace.tla): a real Ballotbox is
+    driven with really signed ballots (INIT / suffrage-confirm / ACCEPT, embedded voteproofs, expels) through
+    Vote / Count / SetLastPoint - every start position x every ballot x every embedded voteproof, every record
+    voted to a decision from every start position, seeded consensus-like flows with late ballots - and
+    LastPoint() is read before and after every call; TLC replays the recording through the model's actions,
+    evaluates the statement on every REAL move (verdict) and compares the model's own answer (evidence).
+    LastPointVote.tla itself is model-checked against the statement; with the Before() re-check of
+    countVoterecords removed (Guard = "filter") TLC must find a counterexample (the check is not vacuous).
  3. binding A, sequences: -simulate walks of LastPoint.tla / LastVoteproofs.tla replayed into ONE
     long-lived real Ballotbox / LastVoteproofsHandler; the statement is evaluated on the real position
     sequence, differences to the model are evidence.
@@ -20,6 +28,7 @@ import json
 import os
 import re
 import shutil
+import time
 from concurrent.futures import ThreadPoolExecutor
 from vlib import core
 
@@ -123,13 +132,140 @@ def _replay(ctx, name, behaviours):
     return [by[i + 1] for i in range(len(behaviours))]
 
 
+def _split_trace(path, maxev):
+    """split a recorded votes trace at Reset events into chunks of about maxev events"""
+    chunks, cur = [], []
+    for line in open(path):
+        if line.startswith('{"a":"Reset"') and len(cur) >= maxev:
+            chunks.append(cur)
+            cur = []
+        cur.append(line)
+    if cur:
+        chunks.append(cur)
+    return chunks
+
+
+def _vote_trace(ctx, name, lines):
+    """validate one chunk with LastPointVoteTrace; returns (result, sub ctx)"""
+    sub = _sub(ctx, name)
+    path = os.path.join(sub.work, "chunk.ndjson")
+    with open(path, "w") as f:
+        f.writelines(lines)
+    ok, r, hw = sub.tlc_validate_trace("LastPointVoteTrace", "LastPointVoteTrace.cfg", path, timeout=2400)
+    if not ok or r.distinct != len(lines) + 1:
+        raise core.MachineryError("votes trace %s not consumed (hw=%s, %d states for %d events):\n%s" % (
+            name, hw, r.distinct, len(lines), r.out[-3000:]))
+    shutil.rmtree(sub.work, ignore_errors=True)
+    return r, sub
+
+
+def _history_of(evs, i):
+    """events of the history that contains event index i (0-based), up to and including i"""
+    j = i
+    while evs[j]["a"] != "Reset":
+        j -= 1
+    return evs[j:i + 1]
+
+
+def _opstr(e):
+    if e["a"] == "Vote":
+        k = e["k"]
+        kind = {"I": "INIT", "S": "suffrage-confirm INIT", "A": "ACCEPT"}[k["k"]]
+        return "Vote(%s ballot of %s for (h%d,r%d) fact %s embedding %s)" % (
+            kind, e["n"], k["h"], k["r"], e["f"], "no voteproof" if is_zero(e["e"]) else "voteproof " + pstr(e["e"]))
+    if e["a"] == "SetLast":
+        return "SetLastPoint(%s)" % pstr(e["p"])
+    return e["a"]
+
+
+def _votes_start(ctx, prefix, quick):
+    """start TLC (LastPointVoteTrace) on the recorded votes traces, chunks side by side (they run while the
+    other relations are judged)"""
+    ex = ThreadPoolExecutor(max_workers=4 if quick else 8)
+    futs = []
+    for fam in ("f1", "f2", "rnd"):
+        for ci, lines in enumerate(_split_trace(prefix + "." + fam, 25000 if quick else 40000)):
+            futs.append((fam, ci, lines, ex.submit(_vote_trace, ctx, "vt-%s-%d" % (fam, ci), lines)))
+    ex.shutdown(wait=False)
+    return futs
+
+
+def _votes_finish(ctx, futs, diverge):
+    """the verdict on the recorded votes traces"""
+    done = [(fam, ci, lines, f.result()) for fam, ci, lines, f in futs]
+    stats = {"histories": 0, "votes": 0, "moves_by_vote_to_embedded_voteproof": 0, "moves_by_vote_to_counted_voteproof": 0,
+             "steps_back_by_vote(suffrage-confirm)": 0, "moves_by_count": 0, "moves_by_setlastpoint": 0,
+             "lower_height_voteproof_forwarded_by_suffrage_confirm_filter(position kept)": 0}
+    ctx.extra["votes_trace_validation_wall_s"] = {"%s-%d(%d events)" % (fam, ci, len(lines)): round(r.wall, 1) for fam, ci, lines, (r, _) in done}
+    for fam, ci, lines, (r, sub) in done:
+        ctx.states += r.distinct
+        ctx.transitions += r.generated
+        ctx.tlc_cmds += sub.tlc_cmds
+        evs = [json.loads(x) for x in lines]
+        hist = None
+        for e in evs:
+            if e["a"] == "Reset":
+                if hist is not None:
+                    ctx.case(hist, nontrivial=True)
+                hist = ["votes", e["nn"], e["t10"], e["ex"], e["suf"]]
+                stats["histories"] += 1
+                ctx.traces += 1
+                continue
+            hist.append([e["a"], pk(e["p"])] if e["a"] == "SetLast" else
+                        [e["a"], e["n"], e["k"]["h"], e["k"]["r"], e["k"]["k"], e["f"], pk(e["e"])] if e["a"] == "Vote" else [e["a"]])
+            if e["a"] == "Learn":
+                continue
+            moved = pk(e["before"]) != pk(e["after"])
+            if e["a"] == "Vote":
+                stats["votes"] += 1
+                if moved:
+                    stats["moves_by_vote_to_embedded_voteproof" if pk(e["after"]) == pk(e["e"]) else "moves_by_vote_to_counted_voteproof"] += 1
+                    if not is_zero(e["before"]) and e["after"]["h"] == e["before"]["h"] and earlier(e["after"], e["before"]):
+                        stats["steps_back_by_vote(suffrage-confirm)"] += 1
+                if e.get("err"):
+                    ctx.violation("panic(Vote)" if e["err"].startswith("panic") else "error(Vote)", e["err"][:300],
+                                  {"family": fam, "history": _history_of(evs, evs.index(e))})
+            elif moved:
+                stats["moves_by_count" if e["a"] == "Count" else "moves_by_setlastpoint"] += 1
+            for p in e.get("emit", []):
+                if not is_zero(e["before"]) and p["h"] < e["before"]["h"]:
+                    stats["lower_height_voteproof_forwarded_by_suffrage_confirm_filter(position kept)"] += 1
+        if hist is not None:
+            ctx.case(hist, nontrivial=True, sample={"family": fam, "history": [_opstr(e) for e in _history_of(evs, len(evs) - 1)[1:]][:6]})
+        for m in re.finditer(r'<<"MISMATCH", "([^"]*)", (\d+)>>', r.out):
+            cls, i = m.group(1), int(m.group(2)) - 1
+            e = evs[i]
+            hs = _history_of(evs, i)
+            key = cls
+            if cls.startswith("setlast:"):
+                key = "box:" + cls.split(":", 1)[1]
+            elif cls.startswith("vote:") and pk(e["before"]) != pk(e["after"]):
+                key = cls + (";moved-to-embedded-voteproof" if pk(e["after"]) == pk(e["e"]) else ";moved-to-counted-voteproof")
+            ctx.violation(key, "real Ballotbox (n=%d, threshold %s%%%s): after %s the call %s moves the position %s -> %s (%s)" % (
+                hs[0]["nn"], hs[0]["t10"] / 10, ", last node expelled" if hs[0]["ex"] else "",
+                " ; ".join(_opstr(x) for x in hs[1:-1]) or "nothing", _opstr(e), pstr(e["before"]), pstr(e["after"]), cls),
+                {"family": fam, "history": hs})
+        for m in re.finditer(r'<<"DIVERGE", "([^"]*)", (\d+)>>', r.out):
+            k = "votes:" + m.group(1)
+            diverge[k] = diverge.get(k, 0) + 1
+            if "votes_model_divergence_example" not in ctx.extra:
+                ctx.extra["votes_model_divergence_example"] = {"class": m.group(1), "history": [
+                    "%s: %s -> %s%s" % (_opstr(x), pstr(x["before"]), pstr(x["after"]), "" if x.get("ok") else " (false)")
+                    for x in _history_of(evs, int(m.group(2)) - 1)[1:] if x["a"] != "Learn"][-14:]}
+    ctx.extra["votes_relation"] = stats
+    for k in ("moves_by_vote_to_embedded_voteproof", "moves_by_vote_to_counted_voteproof", "steps_back_by_vote(suffrage-confirm)", "moves_by_count"):
+        if stats[k] == 0:
+            raise core.MachineryError("votes: the recorded histories contain no %s" % k)
+
+
 def run(ctx):
     quick = ctx.tier == "quick"
     maxh, maxr = (2, 2) if quick else (3, 3)
     ctx.rule = ("(last, cand) pairs of positions (height 0..%d, round 0..%d, stage, majority, suffrage-confirm; %s) offered to the "
                 "real functions / a fresh real Ballotbox / a real LastVoteproofsHandler in every (ivp, avp) state; plus seeded update "
-                "sequences into long-lived objects; non-trivial = last is not the zero position; distinct by (object, last|state, cand) "
-                "resp. by sequence" % (maxh, maxr, "43 positions" if quick else "79 positions"))
+                "sequences into long-lived objects; plus histories of really signed ballots (every start position x every ballot x every "
+                "embedded voteproof, every record voted to a decision, seeded consensus-like flows) voted into a real Ballotbox; "
+                "non-trivial = last is not the zero position; distinct by (object, last|state, cand) resp. by sequence / history" % (maxh, maxr, "43 positions" if quick else "79 positions"))
     ctx.exhaustive = True
     diverge = {}
 
@@ -144,7 +280,11 @@ def run(ctx):
         out = f(sub)
         return out, sub
 
-    with ThreadPoolExecutor(max_workers=6) as ex:
+    vprefix = os.path.join(ctx.work, "votes")
+    vmaxh, vmaxr, vnum, vlen = (2, 1, 150, 30) if quick else (3, 2, 1500, 40)
+    with ThreadPoolExecutor(max_workers=8) as ex:
+        f_votes = ex.submit(lambda: ctx.vh(["C06", "votes", "--maxh", vmaxh, "--maxr", vmaxr, "--num", vnum, "--len", vlen,
+                                            "--out", vprefix], timeout=2400))
         f_dump = ex.submit(job, "dump", lambda c: c.tlc_dump_steps("LastPoint", cfg, timeout=1500, workers=4))
         f_rel = ex.submit(lambda: ctx.vh(["C06", "relation", "--maxh", maxh, "--maxr", maxr, "--out", rel], timeout=1500))
         f_mc = ex.submit(job, "lvmc", lambda c: c.tlc("LastVoteproofs", mcfg, timeout=1500, workers=4))
@@ -152,11 +292,23 @@ def run(ctx):
                                                            allow_violation=True, workers=2))
         f_simb = ex.submit(job, "simb", lambda c: c.tlc_simulate("LastPoint", "LastPoint_sim.cfg", num=nb, depth=30))
         f_simv = ex.submit(job, "simv", lambda c: c.tlc_simulate("LastVoteproofs", "LastVoteproofs_sim.cfg", num=nb, depth=9))
-        names = [("dump", f_dump), ("lvmc", f_mc), ("lvcand", f_cand), ("simb", f_simb), ("simv", f_simv)]
+        f_vmc = ex.submit(job, "lpvmc", lambda c: c.tlc("LastPointVote", "LastPointVote_mc_quick.cfg" if quick else
+                                                         "LastPointVote_mc_thorough.cfg", timeout=2400, workers=4))
+        f_vcand = ex.submit(job, "lpvcand", lambda c: c.tlc("LastPointVote", "LastPointVote_cand.cfg", timeout=900,
+                                                             allow_violation=True, workers=2))
+        names = [("dump", f_dump), ("lvmc", f_mc), ("lvcand", f_cand), ("simb", f_simb), ("simv", f_simv),
+                 ("lpvmc", f_vmc), ("lpvcand", f_vcand)]
         if not quick:
+            names.append(("lpvmc2", ex.submit(job, "lpvmc2", lambda c: c.tlc("LastPointVote", "LastPointVote_mc_thorough2.cfg",
+                                                                              timeout=2400, workers=4))))
+            names.append(("lpvvac", ex.submit(job, "lpvvac", lambda c: c.tlc("LastPointVote", "LastPointVote_vac.cfg", timeout=900, workers=2,
+                                                                              args=["-continue"], allow_violation=True))))
             # vacuity: a backward step and a majority-replaces-non-majority step must exist in the model
             names.append(("vac", ex.submit(job, "vac", lambda c: c.tlc("LastPoint", "LastPoint_vac.cfg", timeout=900, workers=2,
                                                                       args=["-continue"], allow_violation=True))))
+        f_votes.result()
+        ctx.extra["votes_recording_wall_s"] = round(time.time() - ctx.t0 - ctx.extra.get("build_s", 0), 1)
+        vfuts = _votes_start(ctx, vprefix, quick)      # runs beside everything below
         done = {}
         for name, f in names:
             out, sub = f.result()
@@ -166,6 +318,18 @@ def run(ctx):
             ctx.tlc_cmds += sub.tlc_cmds
             shutil.rmtree(sub.work, ignore_errors=True)
         f_rel.result()
+
+    ctx.extra["voting_model_check_wall_s"] = {k: round(done[k].wall, 1) for k in done if k.startswith("lpv")}
+    # the voting model: without the Before() re-check of countVoterecords the statement must fail (not vacuous)
+    if done["lpvcand"].violated != "MoveOK":
+        raise core.MachineryError("LastPointVote with Guard = \"filter\" does not violate MoveOK: the voting model is vacuous")
+    ctx.extra["voting_model_needs_Before_recheck(Guard=filter violates MoveOK)"] = True
+    if "lpvvac" in done:
+        seen = set(re.findall(r"Action property (\w+) is violated", done["lpvvac"].out))
+        want = {"NeverMovesByCount", "NeverBackByVote", "NeverToEmbedded", "NeverToCounted"}
+        if seen != want:
+            raise core.MachineryError("vacuity: the voting model has no %s step" % (want - seen))
+        ctx.extra["voting_model_vacuity_checked"] = "moves by Count, steps back by Vote, moves to embedded and to counted voteproofs exist in LastPointVote.tla"
 
     if "vac" in done:
         seen = set(re.findall(r"Action property (\w+) is violated", done["vac"].out))
@@ -252,6 +416,9 @@ def run(ctx):
         for (cls, k) in _diverges(res[name][0]):
             diverge.setdefault(cls, 0)
             diverge[cls] += 1
+
+    # ---- 2b. the moves the box makes itself while it votes
+    _votes_finish(ctx, vfuts, diverge)
 
     # handler: every failing edge must be reproduced on ONE long-lived real handler by a Set-only history
     byid = {n["id"]: n for n in hdl}
@@ -388,6 +555,10 @@ def run(ctx):
         "the handler's (ivp, avp) states are built with ForceSetLast for the relation; every failing edge is re-reached by Set "
         "alone on one long-lived handler before it is reported",
         "handler sequences are at most 8 calls long so that the 8-entry LRU cache never evicts",
+        "votes: one box call at a time (the goroutines a Vote leaves behind have ended before LastPoint() is read); embedded "
+        "voteproofs are valid and carry the box's threshold; a held INIT draw is never released (holds, invalid voteproofs and "
+        "record recycling are C04/C05's subject); a lower-height voteproof forwarded to the states by the suffrage-confirm filter "
+        "while the position stays is counted in votes_relation, not alarmed (weaker reading of sentence 2)",
         "the statement's last sentence is read step-wise (the current position is not taken again); recurrence later in a history "
         "is reported under position_can_recur_later_in_a_history only",
     ]
